@@ -19,12 +19,13 @@ IntT(i)  == TInt(70 + i, 40 + i)
 StrT(i, b) == TStr(80 + i, b)
 Fxvy == <<120, 37, 118, 121>>                 \* "x%vy"
 
-QOps == { SSafeString(<<A>>), SSafeString(StartM), SUnsafeString(<<A>>), SUnsafeString(<<NL, A>>), SUnsafeString(<<>>),
+QOps == { SSafeString(<<A>>), SSafeString(StartM), SSafeUint(76, -1), SSafeString(<<A>> \o EndM), SUnsafeString(<<A>>), SUnsafeString(<<NL, A>>), SUnsafeString(<<>>),
           SUnsafeString(EndM), SSafeRune(8250), SUnsafeRune(NL), SUnsafeByte(226), SSafeInt(71, 41),
           SPrint(<<StrT(1, <<A, NL>>)>>), SPrint(<<TSafe(90, StrT(2, <<A>>))>>), SPrintf(Fxvy, <<IntT(2)>>), SWrite(<<A>>) }
 TOps == QOps \cup { SSafeString(<<NL>>), SSafeBytes(Cross), SUnsafeBytes(<<A, 226>>), SSafeByte(A), SUnsafeString(<<PTok + 5>>),
                     SSafeRune(55296), SUnsafeRune(8249), SPrint(<<IntT(3), StrT(3, <<A>>)>>), SSafeString(<<>>),
-                    SPrintf(<<37, 118, 37, 118>>, <<StrT(4, <<A>>), TSafe(91, IntT(4))>>), SWrite(<<NL>>), SSafeString(<<226, 128>>) }
+                    SPrintf(<<37, 118, 37, 118>>, <<StrT(4, <<A>>), TSafe(91, IntT(4))>>), SWrite(<<NL>>), SSafeString(<<226, 128>>),
+                    SSafeUint(76, -1), SSafeFloat(77), SSafeString(EndM), SSafeBytes(<<A>> \o EndM) }
 Ops == IF OpSetName = "T" THEN TOps ELSE QOps
 
 Init == h = <<>>
@@ -61,7 +62,8 @@ DenOp(op, acc) ==
        [] op.o = "UnsafeRune" -> add(EncodeRune(op.n), FALSE, ValidRune(op.n))
        [] op.o = "SafeByte"   -> add(<<op.n>>, TRUE, op.n < 128)
        [] op.o = "UnsafeByte" -> add(IF op.n >= 128 THEN <<Q>> ELSE <<op.n>>, FALSE, op.n < 128)
-       [] op.o = "SafeInt"    -> << acc[1] \o <<RTok + acc[4] + 1>>, acc[2] \o <<RTok + acc[4] + 1>>, acc[3], acc[4] + 1 >>
+       [] op.o \in {"SafeInt", "SafeUint", "SafeFloat"} ->
+                                 << acc[1] \o <<RTok + acc[4] + 1>>, acc[2] \o <<RTok + acc[4] + 1>>, acc[3], acc[4] + 1 >>
        [] op.o = "Print"      -> DenArgs(op.ts, 1, FALSE, acc)
        \* Printf formats of the op sets are literal / %v only: literals are safe text
        [] op.o = "Printf"     -> IF op.f = Fxvy
